@@ -17,18 +17,37 @@ class SeamDivergence(Exception):
     """Replaying an answer prefix met a different seam sequence: nondeterminism we do not own."""
 
 
+_ACTIVE = []  # stack of [(module, name, original, patched value)] currently applied
+
+
 @contextlib.contextmanager
 def patched(*triples):
     """patched((module, 'name', value), ...)"""
     saved = []
+    _ACTIVE.append(saved)
     try:
         for mod, name, val in triples:
-            saved.append((mod, name, getattr(mod, name)))
+            saved.append((mod, name, getattr(mod, name), val))
             setattr(mod, name, val)
         yield
     finally:
-        for mod, name, old in reversed(saved):
+        for mod, name, old, _ in reversed(saved):
             setattr(mod, name, old)
+        _ACTIVE.remove(saved)
+
+
+@contextlib.contextmanager
+def unpatched():
+    """Temporarily restore every active patch (used by recording wrappers around *jitted* functions: if numba
+    has to compile a new signature while a module global is patched it would try to type the oracle)."""
+    flat = [e for saved in _ACTIVE for e in saved]
+    try:
+        for mod, name, old, _ in reversed(flat):
+            setattr(mod, name, old)
+        yield
+    finally:
+        for mod, name, _, val in flat:
+            setattr(mod, name, val)
 
 
 class Oracle:
